@@ -30,7 +30,7 @@ one() {
   S=/tmp/sweep-verif-$sid
   rm -rf $S; mkdir -p $S
   (cd $V && tar cf - --exclude=lean/.lake --exclude=evidence --exclude=replays --exclude=.git --exclude=seeded . ) | (cd $S && tar xf -)
-  ln -s $V/lean/.lake $S/lean/.lake
+  cp -r $V/lean/.lake $S/lean/.lake   # private copy: a rebuild in /verif must not disturb a running sweep
   (cd $S && QKV_REPO=$W ./check $prop quick > /tmp/sweep-$sid.check.log 2>&1); ce=$?
   viol=$(grep -c "^VIOLATION" /tmp/sweep-$sid.check.log)
   nofail=$(grep -c "no-failing-input-found" /tmp/sweep-$sid.check.log)
